@@ -140,6 +140,23 @@ def check_spelling(cfg, node_long, spelling, suffix, out, heavy=False):
         df_util.convert_to_form(df, sch, "short_tag")
         if list(df["a"]) != [exp_short] or list(df["b"]) != [exp_short]:
             out.bad("dataframe-short-differs", f"{cfg}: {text!r}: {df.values.tolist()}")
+        # a frame / series whose row labels are not 0..n-1 in order (sorted, filtered, re-indexed tables),
+        # with a repeated cell text and an n/a cell
+        other = ns + ("Event" if node.short != "Event" else "Item")
+        cells = [text, "n/a", other, text, f"({text}, {other})"]
+        idx = [7, 3, 5, 1, 0]
+        df2 = pd.DataFrame({"a": cells}, index=idx)
+        df_util.convert_to_form(df2, sch, "long_tag")
+        got2 = list(df2["a"])
+        ser2 = pd.Series(cells, index=idx)
+        df_util.convert_to_form(ser2, sch, "long_tag")
+        for name, got_ in (("dataframe", got2), ("series", list(ser2))):
+            if got_[0] != exp_long or got_[3] != exp_long or got_[1] != "n/a" or \
+                    not (isinstance(got_[4], str) and got_[4].startswith(f"({exp_long},")) or \
+                    got_[2] != other:
+                out.bad(f"{name}-with-own-row-labels-differs", f"{cfg}: {text!r}: {got_}")
+        if list(df2.index) != idx or list(ser2.index) != idx:
+            out.bad("row-labels-changed-by-conversion", f"{cfg}: {list(df2.index)}")
 
 
 def oracle_enum(case):
